@@ -34,6 +34,7 @@ structure Stats where
   oracle : Nat := 0
   unknown : Nat := 0
   hashes : Std.HashSet UInt64 := {}
+  nontrivial : Std.HashSet UInt64 := {}
   branches : Std.HashMap String Nat := {}
 
 /-- split a `P` line into (fn, args, implOut) -/
@@ -60,6 +61,8 @@ def stepLine (st : Stats) (line : String) (maxReport : Nat) : IO Stats := do
     | some (modelOut, s) =>
       let br := fn ++ "/" ++ s.branch fn args
       let st := { st with branches := st.branches.insert br (st.branches.getD br 0 + 1) }
+      let st := if (s.branch fn args).startsWith "triv" then st
+                else { st with nontrivial := st.nontrivial.insert (hash line) }
       let st ← if modelOut ≠ " ".intercalate implOut then do
           if st.mismatches < maxReport then IO.println s!"MISMATCH {fn} model={modelOut} || {line}"
           pure { st with mismatches := st.mismatches + 1 }
@@ -81,7 +84,7 @@ def run (maxReport : Nat := 200) : IO UInt32 := do
   let st ← loop (← IO.getStdin) {} maxReport
   for (k, v) in st.branches.toList do
     IO.println s!"BR {k} {v}"
-  IO.println s!"SUMMARY cases={st.cases} mismatches={st.mismatches} oracle={st.oracle} unknown={st.unknown} distinct={st.hashes.size}"
+  IO.println s!"SUMMARY cases={st.cases} mismatches={st.mismatches} oracle={st.oracle} unknown={st.unknown} distinct={st.hashes.size} nontrivial={st.nontrivial.size}"
   return 0
 
 end FatVerif.PureMain
